@@ -66,6 +66,19 @@ ZERO_RAW = {"index", "unit", "units", "label", "source", "dtypes", "columns", "n
 
 
 # functions whose result is external data or a stdlib value: raw, depends on the arguments only
+MODULES = {"np", "math", "pd", "pint_pandas", "pytz", "re", "pint", "numbers", "os", "json", "uuid"}
+
+
+def deep_deps(v):
+    """dependencies of a value including those of the elements of raw containers (dict/list literals)"""
+    if v is None:
+        return F()
+    d = v.deps
+    if v.k in ("list", "dict") and v.elem is not None:
+        d = d | deep_deps(v.elem)
+    return d
+
+
 EXTERNAL_CALLS = {"call_boaviztapi": "packaged Boavizta data looked up by provider / instance type",
                   "timedelta": "datetime.timedelta", "datetime": "datetime.datetime"}
 
@@ -281,7 +294,11 @@ class Cx:
         self.fn = []             # stack of (path, qualname)
 
     def ctldeps(self):
-        return F().union(*self.ctl) if self.ctl else F()
+        """control context as references tagged 'c' (4-tuples), so that data and control dependencies stay apart:
+        construction sites are checked on data dependencies only, write sites on both"""
+        if not self.ctl:
+            return F()
+        return F((r[0], r[1], r[2], "c") for s in self.ctl for r in s)
 
     def tainted(self):
         out = set()
@@ -633,7 +650,10 @@ class Interp:
         args = [self.ev(a, env, cx) for a in e.args]
         kw = {k.arg: self.ev(k.value, env, cx) for k in e.keywords if k.arg}
         allv = args + list(kw.values())
-        alld = F().union(*[a.deps for a in allv]) if allv else F()
+        alld = F().union(*[deep_deps(a) for a in allv]) if allv else F()
+        if isinstance(f, ast.Attribute) and isinstance(f.value, ast.Name) and f.value.id in MODULES \
+                and f.value.id not in env:
+            return self.call_module(f.value.id, f.attr, e, args, kw, alld, cx)
         if isinstance(f, ast.Name):
             return self.call_name(f.id, e, args, kw, alld, env, cx)
         if isinstance(f, ast.Attribute) and isinstance(f.value, ast.Call) and isinstance(f.value.func, ast.Name) \
@@ -756,36 +776,38 @@ class Interp:
             return join(outs)
         if b.k == "class":
             return raw(alld, deg={})
-        # module functions: np.*, math.*, pd.*, pint_pandas.*
-        mod = None
-        if isinstance(e.func, ast.Attribute) and isinstance(e.func.value, ast.Name):
-            mod = e.func.value.id
-        if mod in ("np", "math", "pd", "pint_pandas", "u", "pytz", "re"):
-            n = name
-            if n in ("ceil", "floor", "round", "rint", "trunc"):
-                d = d_nl(a0.deg if a0 is not None else None)
-            elif n in ("maximum", "minimum"):
-                d = d_add(args[0].deg, args[1].deg)
-            elif n in ("abs", "array", "asarray"):
-                d = a0.deg
-            elif n == "full":
-                d = (args[1] if len(args) > 1 else kw.get("fill_value", raw(deg={}))).deg
-            elif n in ("DataFrame", "PintArray", "Series"):
-                a = a0 if a0 is not None else kw.get("data", raw(deg={}))
-                src = a.elem if (a.k in ("dict", "list") and a.elem is not None) else a
-                d = src.deg if src.k in ("E", "raw") else {}
-                alld = alld | src.deps
-            elif n == "concat":
-                src = a0.elem if (a0 is not None and a0.elem is not None) else a0
-                d = src.deg if src is not None else {}
-                alld = alld | (src.deps if src is not None else F())
-            elif n in ("ones", "zeros", "arange", "date_range", "timezone", "Timedelta", "search", "match"):
-                d = {}
-            else:
-                d = d_nl(join(args).deg if args else None) or {}
-            return self.taintdeg(V("raw", deps=alld, deg=d, carrier="pint" if n in ("PintArray", "DataFrame") else None),
-                                 cx)
         return raw(b.deps | alld, deg={})
+
+    def call_module(self, mod, name, e, args, kw, alld, cx):
+        """np.*, math.*, pd.*, pint_pandas.* …: raw results; degree by a small table, dependencies = all arguments"""
+        a0 = args[0] if args else None
+        n = name
+        if n in ("ceil", "floor", "round", "rint", "trunc"):
+            d = d_nl(a0.deg if a0 is not None else None)
+        elif n in ("maximum", "minimum"):
+            d = d_add(args[0].deg, args[1].deg)
+        elif n in ("abs", "array", "asarray"):
+            d = a0.deg
+        elif n == "full":
+            d = (args[1] if len(args) > 1 else kw.get("fill_value", raw(deg={}))).deg
+        elif n in ("DataFrame", "PintArray", "Series"):
+            a = a0 if a0 is not None else kw.get("data", raw(deg={}))
+            src = a.elem if (a.k in ("dict", "list") and a.elem is not None) else a
+            d = src.deg if src.k in ("E", "raw") else {}
+        elif n == "concat":
+            src = a0.elem if (a0 is not None and a0.elem is not None) else a0
+            d = src.deg if src is not None else {}
+        elif n in ("ones", "zeros", "arange", "date_range", "timezone", "Timedelta", "search", "match", "linspace",
+                   "sin", "pi", "randint"):
+            d = {}
+        else:
+            d = d_nl(join(args).deg if args else None) or {}
+        shares = F()
+        if n in ("DataFrame", "PintArray", "Series", "array", "asarray"):
+            for a in args + list(kw.values()):
+                shares |= a.shares
+        return self.taintdeg(V("raw", deps=alld, deg=d, shares=shares,
+                               carrier="pint" if n in ("PintArray", "DataFrame") else None), cx)
 
     def call_name(self, n, e, args, kw, alld, env, cx):
         pm = self.pm
@@ -815,7 +837,8 @@ class Interp:
                 deg = None
             else:
                 deg = val.deg if (val is not None and val.k in ("E", "raw")) else {}
-            site = Site("ctor", e, where[1], where[0], ctor=n, parents=anc, valdeps=vdeps, ctl=cx.ctldeps(),
+            site = Site("ctor", e, where[1], where[0], ctor=n, parents=anc,
+                        valdeps=F(r for r in vdeps if len(r) == 3), ctl=cx.ctldeps(),
                         has_parents=bool(pars) or any(p is not None for p in (L, R)))
             cx.sites.append(site)
             shares = val.shares if val is not None else F()
